@@ -304,9 +304,9 @@ func randItems(r *kit.Rand, maxItems, maxData int) []string {
 }
 
 func genRandomLogs(o *kit.Out, r *kit.Rand, thorough bool) {
-	cases, maxData := 60, 200
+	cases, maxData := 45, 200
 	if thorough {
-		cases = 400
+		cases = 200
 	}
 	for c := 0; c < cases; c++ {
 		o.Case(fmt.Sprintf("log-%d", c))
@@ -353,7 +353,7 @@ func genRandomLogs(o *kit.Out, r *kit.Rand, thorough bool) {
 		// single-byte corruption
 		if thorough && len(log) <= 700 {
 			for pos := 0; pos < len(log); pos++ {
-				for i := 0; i < 6; i++ {
+				for i := 0; i < 4; i++ {
 					v := r.Intn(256)
 					if i == 0 {
 						v = kit.Pick(r, specialBytes)
